@@ -213,6 +213,15 @@ def run_shard(shard, acc):
         nprem = data.draw(st.integers(1, 3)) if pname in ('modal-heavy', 'modal-deep') else data.draw(st.integers(0, 3))
         prem = [data.draw(gen.sentence(prof)) for _ in range(nprem)]
         con = data.draw(gen.sentence(prof))
+        if pname == 'generic' or data.draw(st.integers(0, 3)) == 0:
+            # rule-first: one drawn top-level form (what a rule is written for) as a premise or as the conclusion
+            shapes = gen.shapes_for(prof)
+            shaped = data.draw(gen.shaped_sentence(prof, shapes[data.draw(st.integers(0, len(shapes) - 1))]))
+            k = data.draw(st.integers(0, len(prem)))
+            if k == len(prem):
+                con = shaped
+            else:
+                prem[k] = shaped
         case = prover.mk_case(logic, prem, con, group=data.draw(st.booleans()), rank=data.draw(st.booleans()),
                               order=data.draw(st.integers(0, 15)), max_steps=MAX_STEPS)
         res, info = check_case(case)
